@@ -6,6 +6,7 @@
 package main
 
 import (
+	"os"
 	"encoding/json"
 	"fmt"
 	"math/rand"
@@ -148,6 +149,7 @@ type input struct {
 	Work     []int `json:"work"`    // handler duration (us) per run
 	Blocked  int   `json:"blocked"` // run whose first handler blocks (-1 none)
 	Stall    bool  `json:"stall"`   // hold the reader between unlock and wait while a message arrives
+	Hold     int   `json:"hold,omitempty"` // keep the blocked handler blocked for this many ms after every other run has finished
 }
 
 type obs struct {
@@ -284,6 +286,11 @@ func run(raw json.RawMessage) lib.Case {
 		}
 	}
 	okOthers := waitEnded(wantOthers, 30*time.Second)
+	if in.Blocked >= 0 && in.Hold > 0 {
+		// "all handler durations including indefinitely blocked ones": the messages queued behind the
+		// blocked handler must still be waiting after a long time
+		time.Sleep(time.Duration(in.Hold) * time.Millisecond)
+	}
 	if in.Blocked >= 0 {
 		rec.stamp(in.Blocked, "ORelease", 0)
 	}
@@ -358,6 +365,9 @@ func run(raw json.RawMessage) lib.Case {
 	if in.Stall {
 		class += "-stall"
 	}
+	if in.Hold > 0 {
+		class += "-longhold"
+	}
 	// the scenario was reached only if every expected message was at least accepted
 	reached := true
 	for k := range want {
@@ -410,12 +420,20 @@ func generate(rng *rand.Rand, tier string) []interface{} {
 }
 
 func corpus() []interface{} {
-	return []interface{}{
+	l := []interface{}{
 		input{Servers: 3, Runs: 2, PerChild: 3, Local: 4, Feeders: 2, Work: []int{200, 0}, Blocked: 0},
 		input{TCP: true, Servers: 4, Runs: 2, PerChild: 4, Local: 6, Feeders: 3, Work: []int{0, 100}, Blocked: 1},
 		input{Servers: 5, Runs: 1, PerChild: 8, Local: 16, Feeders: 4, Work: []int{100}, Blocked: -1},
 		input{Servers: 3, Runs: 2, PerChild: 2, Local: 2, Feeders: 1, Work: []int{0}, Blocked: -1, Stall: true},
 	}
+	// a handler blocked for a long time (watchdogs, time-outs on the dispatch): 11.5 s, thorough also 65 s
+	l = append(l, input{Servers: 3, Runs: 2, PerChild: 2, Local: 3, Feeders: 1, Work: []int{0}, Blocked: 0, Hold: 11500})
+	for i, a := range os.Args {
+		if a == "-tier" && i+1 < len(os.Args) && os.Args[i+1] != "quick" {
+			l = append(l, input{Servers: 3, Runs: 2, PerChild: 2, Local: 3, Feeders: 1, Work: []int{0}, Blocked: 1, Hold: 65000})
+		}
+	}
+	return l
 }
 
 func main() {
